@@ -28,7 +28,7 @@ _CMP = {
     ast.In: lambda a, b: a in b, ast.NotIn: lambda a, b: a not in b,
 }
 _BIN = {ast.Add: operator.add, ast.Sub: operator.sub, ast.Mult: operator.mul, ast.FloorDiv: operator.floordiv,
-        ast.Mod: operator.mod}
+        ast.Mod: operator.mod, ast.BitAnd: operator.and_, ast.BitOr: operator.or_, ast.BitXor: operator.xor}
 
 
 class Evaluator:
@@ -57,6 +57,8 @@ class Evaluator:
                 return not v
             if isinstance(e.op, ast.USub):
                 return -v
+            if isinstance(e.op, ast.Invert) and isinstance(v, int):
+                return ~v
             return UNKNOWN
         if isinstance(e, ast.BoolOp):
             vals = []
